@@ -2,3 +2,7 @@
 import BA.Prelude
 import BA.Generated.Constants
 import BA.Model.Paych
+import BA.Model.Evm.Keccak
+import BA.Model.Evm.Rlp
+import BA.Model.Init
+import BA.Model.Eam
